@@ -797,7 +797,9 @@ impl<C: Config, Q: Query> Snapshot<C, Q> {
         new_tfc: Option<Interned<TransitiveFirewallCallees>>,
         timestamp: Timestamp,
     ) {
+        crate::verif_point!("cl.publish", Some(self.query_id()), 0);
         let mut tx = self.engine().new_write_transaction();
+        crate::verif_pause!("cq.start", Some(self.query_id()));
 
         let new_node_info = if let Some(x) = new_tfc {
             let mut current_node_info = self.node_info().await.unwrap();
@@ -838,6 +840,7 @@ impl<C: Config, Q: Query> Snapshot<C, Q> {
             .last_verified
             .insert(*self.query_id(), LastVerified(timestamp), &mut tx)
             .await;
+        crate::verif_pause!("cq.before_submit", Some(self.query_id()));
 
         self.engine().submit_write_buffer(tx);
     }
@@ -867,7 +870,10 @@ impl<C: Config, Q: Query> Snapshot<C, Q> {
         clean_existing_forward_edges: bool,
         mut tx: WriteTransaction<C>,
     ) {
+        crate::verif_pause!("sc.up.before", Some(self.query_id()));
         self.upgrade_to_exclusive().await;
+        crate::verif_point!("cl.publish", Some(self.query_id()), 0);
+        crate::verif_pause!("sc.up.after", Some(self.query_id()));
 
         let query_value_fingerprint = query_value_fingerprint
             .unwrap_or_else(|| self.engine().hash(&query_value));
@@ -940,6 +946,7 @@ impl<C: Config, Q: Query> Snapshot<C, Q> {
                 }
             }
 
+            crate::verif_pause!("sc.unwired", Some(self.query_id()));
             // set pending backward projection if needed
             if has_pending_backward_projection {
                 self.engine()
@@ -978,6 +985,7 @@ impl<C: Config, Q: Query> Snapshot<C, Q> {
                     &mut tx,
                 )
                 .await;
+            crate::verif_pause!("sc.mid", Some(self.query_id()));
 
             for edge in forward_edge_order.0.iter() {
                 match edge {
@@ -1051,6 +1059,7 @@ impl<C: Config, Q: Query> Snapshot<C, Q> {
                     )
                     .await;
             }
+            crate::verif_pause!("sc.before_submit", Some(self.query_id()));
 
             self.engine().submit_write_buffer(tx);
         }
@@ -1068,6 +1077,7 @@ impl<C: Config, Q: Query> Snapshot<C, Q> {
         timestamp: Timestamp,
     ) {
         let query_id = QueryID::new::<Q>(query_hash_128);
+        crate::verif_pause!("si.start", Some(&query_id));
 
         // if have an existing forward edges, unwire the backward edges
         let existing_forward_edges = self.forward_edge_order().await;
@@ -1132,6 +1142,7 @@ impl<C: Config, Q: Query> Snapshot<C, Q> {
                 .last_verified
                 .insert(query_id, LastVerified(timestamp), tx)
                 .await;
+            crate::verif_pause!("si.mid", Some(&query_id));
 
             self.engine()
                 .computation_graph
@@ -1178,15 +1189,18 @@ impl<C: Config, Q: Query> Snapshot<C, Q> {
         let engine = self.engine().clone();
         let query_id = *self.query_id();
 
+        crate::verif_pause!("bp.up.before", Some(&query_id));
         self.upgrade_to_exclusive().await;
 
         async move {
+            crate::verif_pause!("bp.g.start", Some(&query_id));
             engine
                 .computation_graph
                 .database
                 .pending_backward_projection
                 .remove(&query_id, &mut tx)
                 .await;
+            crate::verif_pause!("bp.g.removed", Some(&query_id));
 
             engine.submit_write_buffer(tx);
 
